@@ -241,7 +241,7 @@ def persistence(ctx):
         cand = {}
         for l in r.fsm_leaves(f):
             for a, p in r.guard_lits(l, False):
-                if p and isinstance(a, (Obj, Sym)) and "." not in key(a):
+                if p and isinstance(a, (Obj, Sym)):
                     cand[key(a)] = a
         for k, sig in sorted(cand.items()):
             if deps(sig) & set(sources):
